@@ -25,6 +25,11 @@ from .parameters import SSEParameters
 logger = logging.getLogger(__name__)
 
 
+def _same_id(a: Any, b: Any) -> bool:
+    """JSON-RPC ids are equal when they have the same JSON type and value."""
+    return isinstance(a, str) == isinstance(b, str) and a == b
+
+
 class SSETransport(Transport):
     """
     Universal SSE transport that handles multiple response patterns.
@@ -63,6 +68,8 @@ class SSETransport(Transport):
         # Per in-flight request: set once the sender has put the request's
         # terminal message on the read stream (or has given up)
         self._request_done: Dict[str, asyncio.Event] = {}
+        # The ids of the pending requests as they were sent (7 and "7" are different ids)
+        self._request_ids: Dict[str, Any] = {}
         self._message_lock = asyncio.Lock()
 
         # Memory streams for chuk_mcp message API
@@ -382,11 +389,14 @@ class SSETransport(Transport):
             # Check if this is a response to a pending request
             message_id = message_data.get("id")
             if message_id is not None:
+                typed_id = message_id
                 message_id = str(message_id)
                 resolved = False
                 sender_done = None
                 async with self._message_lock:
-                    if message_id in self._pending_requests:
+                    if message_id in self._pending_requests and _same_id(
+                        self._request_ids.get(message_id, typed_id), typed_id
+                    ):
                         future = self._pending_requests.pop(message_id)
                         if not future.done():
                             future.set_result(message_data)
@@ -482,6 +492,7 @@ class SSETransport(Transport):
                 async with self._message_lock:
                     self._pending_requests[message_id] = future
                     self._request_done[message_id] = request_done
+                    self._request_ids[message_id] = request_id
                     logger.debug(f"Added pending request: {message_id}")
 
                 try:
@@ -597,6 +608,7 @@ class SSETransport(Transport):
                         self._pending_requests.pop(message_id, None)
                         if self._request_done.get(message_id) is request_done:
                             del self._request_done[message_id]
+                            self._request_ids.pop(message_id, None)
 
             else:
                 # Notification - no response expected
